@@ -27,7 +27,7 @@ def main():
         sys.exit(2)
     ctx = Ctx(pid, a.tier, seed)
     ctx.only = a.part
-    ctx.partial = bool(a.part or a.replay)
+    ctx.partial = bool(a.part or a.replay or os.environ.get('VERIF_SCRATCH_EVIDENCE'))
     ctx.selftest = a.selftest
     try:
         if a.replay:
